@@ -308,7 +308,8 @@ def judge_limits(st):
 HUGE = [b'PT' + b'9' * 40 + b'S', b'PT1.' + b'9' * 60 + b'S', b'P' + b'9' * 40 + b'D', b'P' + b'9' * 30 + b'Y',
         b'-P' + b'9' * 25 + b'M', b'PT' + b'9' * 35 + b'H', b'9' * 30 + b'-01-01', b'9' * 25 + b'-01-01T00:00:00',
         b'12:00:00.' + b'9' * 60, b'2000-01-01T00:00:00.' + b'1' * 80, b'1e' + b'9' * 30, b'0.' + b'0' * 400 + b'1',
-        b'--12-31+14:00', b'A' * 4001, b'0' * 10000, b'-' + b'0' * 5000 + b'1', b'1.' + b'0' * 5000]
+        b'P1000000000M', b'-P1000000000M', b'P100000000Y', b'P999999999999D', b'PT99999999999999H', b'P3000000Y',
+        b'100000-01-01', b'-100000-01-01T00:00:00', b'1000000000', b'--12-31+14:00', b'A' * 4001, b'0' * 10000, b'-' + b'0' * 5000 + b'1', b'1.' + b'0' * 5000]
 TYPED_XSD = ('<xs:schema xmlns:xs="http://www.w3.org/2001/XMLSchema">'
              + ''.join('<xs:simpleType name="R_%s"><xs:restriction base="xs:%s"><xs:%s value="%s"/></xs:restriction></xs:simpleType>'
                        '<xs:element name="r_%s" type="R_%s"/>' % (n, b, f, v, n, n) for n, b, f, v in (
